@@ -93,6 +93,14 @@ pub fn run(_seed: u64, replay: Option<String>) -> Outcome {
             if let Some(c) = check(fill, &vals, max, use_drop, 0) { return Outcome { cex: Some(c), cases }; }
         } }
     }
+    // values whose decimal expansion has inner / trailing zeros, for every width (rendered and read back)
+    let mut tens: Vec<i128> = Vec::new();
+    let mut p: i128 = 1;
+    for k in 0..=38 { for d in [1i128, 2, 9] { for off in [-1i128, 0, 1, 7] { if let Some(v) = p.checked_mul(d).and_then(|x| x.checked_add(off)) { tens.push(v); tens.push(-v); } } } if k < 38 { p *= 10; } }
+    for chunk in tens.chunks(21) {
+        cases += 1;
+        if let Some(c) = check(3, chunk, 0, false, 0) { return Outcome { cex: Some(c), cases }; }
+    }
     for fill in [0usize, 10, 65530] { for big in [65537usize, 70000, 131073] { for max in [0usize, 4096] {
         cases += 1;
         if let Some(c) = check(fill, &vals[..5], max, big % 2 == 0, big) { return Outcome { cex: Some(c), cases }; }
